@@ -7,7 +7,7 @@ MODULES = ['PistacheModel.Props.C16', 'PistacheModel.Props.C16Lookup', 'Pistache
 THEOREMS = ['Pistache.Headers.Props.' + t for t in (
     'cache_tables_prefix_free', 'cache_tables_consistent', 'cache_step', 'cache_roundtrip', 'connection_roundtrip',
     'encoding_roundtrip', 'expect_roundtrip', 'content_length_roundtrip', 'server_roundtrip', 'host_roundtrip_plain')] + \
-    ['Pistache.Parser.Props.' + t for t in ('rawGet_any_case', 'rawGet_insert', 'raw_first_wins')] + \
+    ['Pistache.Parser.Props.' + t for t in ('rawGet_any_case', 'rawGet_insert', 'raw_first_wins', 'canon_any_case', 'typed_first_wins')] + \
     ['Pistache.Date.Props.' + t for t in ('parse_write', 'written_fields_valid', 'write_injective')] + \
     ['Pistache.Date.' + t for t in ('secondsOf_civilOf', 'civilOf_range', 'year_le_9999')]
 
